@@ -183,3 +183,29 @@ def iso_classes(k):
         seen |= orbit
         reps.append([(attrs[a], attrs[b]) for a, b in edges])
     return reps
+
+
+def compensate(attrs, sizes, pots, K=1500.0):
+    """add +K*g(a) to one potential and -K*g(a) to another along an attribute a they share: the joint is unchanged, but every
+    message across that separator has slices thousands of nats apart (under/overflow traps)"""
+    import numpy as np
+    pots = [(c, np.array(a, dtype=float, copy=True)) for c, a in pots]
+    done = False
+    for i in range(len(pots)):
+        for j in range(i + 1, len(pots)):
+            shared = [a for a in pots[i][0] if a in pots[j][0]]
+            if not shared or set(pots[i][0]) == set(pots[j][0]):
+                continue
+            a = shared[0]
+            n = sizes[list(attrs).index(a)]
+            g = np.array([0.0, -1.0, 0.8, -0.6, 0.3][:n] if n <= 5 else np.linspace(-1, 1, n)) * K
+            for idx, sign in ((i, 1.0), (j, -1.0)):
+                c, arr = pots[idx]
+                shp = [1] * arr.ndim
+                shp[list(c).index(a)] = n
+                pots[idx] = (c, arr + sign * g.reshape(shp))
+            done = True
+            break
+        if done:
+            break
+    return pots
